@@ -207,6 +207,7 @@ where
         };
 
         let policy = Arc::new(policy);
+        let processor_stopped = Arc::new(AtomicBool::new(false));
         CacheProcessor::new(
             100000,
             self.inner.ignore_internal_cost,
@@ -218,6 +219,7 @@ where
             clear_rx,
             metrics.clone(),
             callback.clone(),
+            processor_stopped.clone(),
         )
         .spawn();
 
@@ -232,6 +234,7 @@ where
             stop_tx,
             clear_tx,
             is_closed: Arc::new(AtomicBool::new(false)),
+            processor_stopped,
             coster,
             metrics,
             _marker: Default::default(),
@@ -339,6 +342,7 @@ pub(crate) struct CacheProcessor<V, U, CB, S> {
     pub(crate) ignore_internal_cost: bool,
     pub(crate) item_size: usize,
     pub(crate) cleanup_duration: Duration,
+    pub(crate) stopped: Arc<AtomicBool>,
 }
 
 pub(crate) struct CacheCleaner<'a, V, U, CB, S> {
@@ -396,6 +400,9 @@ pub struct Cache<
     pub(crate) key_to_hash: Arc<KH>,
 
     pub(crate) is_closed: Arc<AtomicBool>,
+
+    /// set by the processor when it stops, before it discards the insert buffer
+    pub(crate) processor_stopped: Arc<AtomicBool>,
 
     pub(crate) coster: Arc<C>,
 
@@ -530,6 +537,12 @@ where
         self.insert_buf_tx
             .try_send(Item::Wait(signal))
             .map_err(|e| CacheError::SendError(format!("cache set buf sender: {}", e)))?;
+        if self.processor_stopped.load(Ordering::SeqCst) {
+            // the processor has stopped and may already have discarded the buffer
+            return Err(CacheError::SendError(
+                "cache set buf sender: the cache is being closed".to_string(),
+            ));
+        }
         wg.wait();
         if honoured.load(Ordering::SeqCst) {
             Ok(())
@@ -657,6 +670,7 @@ where
         clear_rx: UnboundedReceiver<WaitSignal>,
         metrics: Arc<Metrics>,
         callback: Arc<CB>,
+        stopped: Arc<AtomicBool>,
     ) -> Self {
         let item_size = store.item_size();
         let hasher = store.hasher();
@@ -673,6 +687,7 @@ where
             ignore_internal_cost,
             item_size,
             cleanup_duration,
+            stopped,
         }
     }
 
@@ -698,7 +713,16 @@ where
                         tracing::error!("fail to handle cleanup event: {}", e);
                     }
                 },
-                recv(self.stop_rx) -> _ => return Ok(()),
+                recv(self.stop_rx) -> _ => {
+                    // The bounded insert buffer keeps its messages when its receiver goes away.
+                    // Raise the flag first, then discard what is buffered: a wait() whose item
+                    // is in the buffer by now is released here, a later one sees the flag.
+                    self.stopped.store(true, Ordering::SeqCst);
+                    while let Ok(item) = self.insert_buf_rx.try_recv() {
+                        drop(item);
+                    }
+                    return Ok(());
+                },
             }
         })
     }
